@@ -37,7 +37,7 @@ class SimThread(object):
                  "daemon", "state", "wait_on", "timed_out", "wait_token",
                  "_baton", "exc", "exc_tb", "lines_since_prim", "steps",
                  "started_at", "ended_at", "library", "_real_started",
-                 "block_since", "result", "priority", "stall_plan")
+                 "block_since", "result", "priority", "stall_plan", "last_ran")
 
     def __init__(self, sim, target=None, name=None, args=(), kwargs=None,
                  daemon=None, role=None, library=False):
@@ -66,6 +66,7 @@ class SimThread(object):
         self.block_since = None
         self.result = None
         self.priority = 0
+        self.last_ran = 0
         self.stall_plan = sorted(sim.stall_plan.get(self.role, ())) if sim.stall_plan else None
         sim.threads.append(self)
 
@@ -240,6 +241,7 @@ class Sim(object):
         self.stalls_fired = 0
         self.in_event = False
         self._untraced = 0
+        self._streak = 0
         self.func_stalls = {}    # qualname -> [[k-th call, steps after entry, duration]]
         self.func_calls = {}
         self.step_triggers = []  # [thread role substring, thread-local step, callback] fired once (event context rules apply)
@@ -445,6 +447,8 @@ class Sim(object):
             return best
         return order[self.choose("sched", n, p0)]
 
+    STREAK_CAP = 4000
+
     def _reschedule(self, kind):
         """Current thread is at a yield point (runnable) or has just blocked."""
         cur = self.cur
@@ -454,6 +458,18 @@ class Sim(object):
         if not r:
             r = self._advance_until_runnable()
         nxt = self._pick(r, kind)
+        # starvation guard (an OS scheduler is pre-emptive): a thread that has kept the CPU for
+        # STREAK_CAP consecutive yield points while others were runnable is descheduled in favour of
+        # the runnable thread that has waited longest.  Deterministic; matters for spin loops and for
+        # minimised tapes whose default choice is "stay on the current thread".
+        if nxt is cur and len(r) > 1 and not self.halted:
+            self._streak += 1
+            if self._streak > self.STREAK_CAP:
+                others = [t for t in r if t is not cur]
+                nxt = min(others, key=lambda t: (t.last_ran, t.tid))
+        if nxt is not cur:
+            self._streak = 0
+            cur.last_ran = self.steps
         if nxt is not cur:
             self.sched_sig.update(("%s>%s@%s;" % (cur.role, nxt.role, kind)).encode())
             self.sched_sig_n += 1
